@@ -126,7 +126,7 @@ def qp(ctx, a, q=None, n=None, **kwargs):
                 return
             if k > maxterms:
                 raise ctx.NoConvergence
-    return ctx.mul_accurately(factors)
+    return +ctx.mul_accurately(factors)
 
 @defun_wrapped
 def qgamma(ctx, z, q, **kwargs):
@@ -277,4 +277,4 @@ def qhyper(ctx, a_s, b_s, q, z, **kwargs):
             yield t * x
             if k > maxterms:
                 raise ctx.NoConvergence
-    return ctx.sum_accurately(terms)
+    return +ctx.sum_accurately(terms)
